@@ -741,10 +741,10 @@ theorem fStep_refines (g : Geom) (hg : g.WF) (f : Files V) (a : MArr V) (h : Rep
   | maskLinear => simp only [fStep, aStep, fMaskLinear_spec g f a h]; exact ⟨trivial, h⟩
   | has i =>
     simp only [Op.InDomain] at hd
-    simp only [fStep, aStep, unravel?_some g.shape i hd, if_pos hd.1, repF_lin g f a h i hd]; exact ⟨trivial, h⟩
+    simp only [fStep, aStep, unravel?_some g.shape i hd, if_pos hd, repF_lin g f a h i hd]; exact ⟨trivial, h⟩
   | «at» i =>
     simp only [Op.InDomain] at hd
-    simp only [fStep, aStep, unravel?_some g.shape i hd, if_pos hd.1, repF_lin g f a h i hd]
+    simp only [fStep, aStep, unravel?_some g.shape i hd, if_pos hd, repF_lin g f a h i hd]
     cases a (shapeToKey g.shape i.toNat) <;> exact ⟨rfl, h⟩
   | persistReopen => exact ⟨rfl, h⟩
 
@@ -916,8 +916,8 @@ theorem fStep_filesInRange (g : Geom) (hg : g.WF) (f : Files V) (h : FilesInRang
   | toArray s => exact h
   | mask => exact h
   | maskLinear => exact h
-  | has i => exact h
-  | «at» i => simp only [fStep]; split <;> exact h
+  | has i => simp only [fStep]; split <;> exact h
+  | «at» i => simp only [fStep]; split <;> (try split) <;> exact h
   | persistReopen => exact h
 
 theorem runOps_filesInRange (g : Geom) (hg : g.WF) : ∀ (ops : List (Op V)) (f : Files V), FilesInRange g f →
